@@ -123,3 +123,16 @@ package rlp
 //@ func IntSize(x uint64) (r int)
 //@   for C16
 //@   ensures r == ite(x < 128, 1, 1 + isz(x))
+
+// Integers: the bytes handed to big.Int.SetBytes never start with a zero byte (canonical integers only).
+//@ trusted func wrapStreamError(err error, typ reflect.Type) (r error)
+//@   ensures (r == nil) <==> (err == nil)
+//@ trusted func (s *Stream) Kind() (kind Kind, size uint64, err error)
+//@   modifies *
+//@ trusted func (s *Stream) readFull(buf []byte) (err error)
+//@   modifies *
+//@ func decodeBigInt(s *Stream, val reflect.Value) (err error)
+//@   for C16
+//@   requires s != nil
+//@   modifies *
+//@   atcall Int.SetBytes requires [noLeadingZero] len(buf) == 0 || buf[0] != 0
